@@ -62,16 +62,23 @@ def entries(content):
     return out
 
 
-def classify(content):
+def input_class(content):
+    """(dup, collide): some emitted definition (the last use under its key) would repeat a parameter name /
+    some use refers to a key whose emitted definition comes from a different function"""
     ents = entries(content)
     winner = {}
     for key, idn, args in ents:
         winner[key] = (idn, args)
     dup = any(len(set(args)) != len(args) for _, args in winner.values())
     collide = any(winner[key][0] != idn for key, idn, _ in ents)
-    if dup:
-        return "F-C11-2"
-    if collide:
+    return dup, collide
+
+
+def classify(content):
+    """finding class of an input that gets past generation (repeated parameter names make generation raise
+    ValueError since the repair of F-C11-2; that is the claim's "or fails", not a finding)"""
+    dup, collide = input_class(content)
+    if collide and not dup:
         return "F-C11-1"
     return None
 
@@ -409,21 +416,27 @@ def judge_oracle_only(ctx, case, R):
     """wider expression fragment: the generated source is executed and the rebuilt model compared with the original
     through every query to a relative tolerance of 1e-9; no Lean model, no order-free spec"""
     classes = cg.rich_classes(case["content"])
-    fid = "F-C11-4" if "recip-modulus" in classes else "F-C11-5" if "shared-modulus" in classes else None
+    # "recip-modulus" (x % (1/p), formerly F-C11-4) is repaired and judged like any other input
+    fid = "F-C11-5" if "shared-modulus" in classes else None
+    dup, collide = input_class(case["content"])
     ctx.count({k: case[k] for k in ("content", "queries", "bad")},
               f"{case.get('stratum', '?')}:{cg.shape_of(case['content'])}:{fid or 'in-scope'}")
     base = {k: case[k] for k in ("content", "bad", "decl_seed", "oracle_only") if k in case}
     if all("err" in S or not cg.finite_answer(S) for S in R["S"]):
         ctx.hist["skipped_model_raises"] = ctx.hist.get("skipped_model_raises", 0) + 1
         return
+    if dup:
+        ctx.judge(dict(base, queries=[]), R.get("gen", {"ok": "source emitted"}), {"err": ["ValueError"]}, None,
+                  what="generation must raise for a repeated parameter name (oracle-only stratum)")
+        return
     if "gen" in R:
         ctx.judge(dict(base, queries=[]), R["gen"], {"ok": "source emitted"}, None, what="generation raised (oracle-only stratum)")
         return
-    if classify(case["content"]) is None:
+    if not collide:
         ctx.judge(dict(base, queries=[]), R["R_struct"], R["S_struct"], None,
                   what="component names / kinds / arguments / plain values (oracle-only stratum)")
     else:
-        return      # name collisions / repeated arguments are the subject of the exact strata
+        return      # name collisions are the subject of the exact strata
     for i, q in enumerate(case["queries"]):
         S, Rq = R["S"][i], R["R"][i]
         if "err" in S or not cg.finite_answer(S):
@@ -436,8 +449,9 @@ def judge_oracle_only(ctx, case, R):
 
 def judge_phase(ctx, case, R, M, tag=""):
     fid = classify(case["content"])
+    dup, collide = input_class(case["content"])
     ctx.count({k: case[k] for k in ("content", "queries", "bad")},
-              f"{case.get('stratum', '?')}:{cg.shape_of(case['content'])}:{fid or 'in-scope'}")
+              f"{case.get('stratum', '?')}:{cg.shape_of(case['content'])}:{fid or ('repeated-parameter' if dup else 'in-scope')}")
     oc = case.get("_orig", case)     # a violation of the second phase is replayed as the whole session
     base = {k: oc[k] for k in ("content", "bad", "decl_seed", "session") if k in oc}
     # ---- generation raises exactly when a function cannot be translated
@@ -448,12 +462,29 @@ def judge_phase(ctx, case, R, M, tag=""):
             Mg = canon_M_err(M["rt"]["err"]) if "err" in M["rt"] else {"ok": "source emitted"}
         ctx.judge(dict(base, queries=[]), Rg, {"err": ["ValueError"]}, Mg, what="generation must raise for an untranslatable function")
         return
+    # ---- the Lean hypotheses are the input classes the harness computes independently
+    if M is not None and M["hyp"] != (not dup and not collide):
+        ctx.add_drift(dict(base, queries=[]), {"dup": dup, "collide": collide}, {"refsResolve": M["hyp"]},
+                      "hypothesis of C11_roundtrip_partial vs input class")
+    if M is not None and M["hypSrc"] != (not collide):
+        ctx.add_drift(dict(base, queries=[]), {"collide": collide}, {"refsSrcOk": M["hypSrc"]},
+                      "hypothesis of C11_roundtrip_or_raises vs input class")
+    if M is not None and M["hypKeys"] and not M["hypSrc"]:
+        ctx.add_drift(dict(base, queries=[]), {"keysInjective": True}, {"refsSrcOk": False},
+                      "input-level hypothesis does not imply the program-level one")
+    # ---- a definition that would repeat a parameter name: generation raises, no source is emitted
+    if dup:
+        Mg = None
+        if M is not None:
+            Mg = canon_M_err(M["rt"]["err"]) if "err" in M["rt"] else {"ok": "source emitted"}
+            if "ok" in M["program"]:
+                ctx.add_drift(dict(base, queries=[]), {"err": ["ValueError"]}, {"ok": "program"}, "Lean generator emits a program with a repeated parameter")
+        ctx.judge(dict(base, queries=[]), R.get("gen", {"ok": "source emitted"}), {"err": ["ValueError"]}, Mg,
+                  what="generation must raise for a repeated parameter name" + tag)
+        return
     if "gen" in R:
         ctx.judge(dict(base, queries=[]), R["gen"], {"ok": "source emitted"}, None, what="generation raised")
         return
-    # ---- the Lean hypothesis `refsResolve` is the input class the harness computes independently
-    if M is not None and M["hyp"] != (fid is None):
-        ctx.add_drift(dict(base, queries=[]), {"class": fid}, {"refsResolve": M["hyp"]}, "hypothesis of C11_roundtrip_partial vs finding class")
     if M is not None and M["hypInput"] and not M["hyp"]:
         ctx.add_drift(dict(base, queries=[]), {"keysInjective_and_argsNoDup": True}, {"refsResolve": False},
                       "input-level hypothesis does not imply the program-level one")
@@ -476,9 +507,8 @@ def judge_phase(ctx, case, R, M, tag=""):
         else:
             ctx.add_drift(dict(base, queries=[]), R["shape"], Mp, "Lean generator fails where the code emits source")
     # ---- names, kinds, wiring
-    ctx.judge(dict(base, queries=[]), R["R_struct"], R["S_struct"],
-              None if fid != "F-C11-2" else ({"err": ["SyntaxError"]} if M is None or "err" in M["rt"] else "lean-ok"),
-              finding=fid if fid == "F-C11-2" else None, what="component names / kinds / arguments / plain values" + tag)
+    ctx.judge(dict(base, queries=[]), R["R_struct"], R["S_struct"], None,
+              what="component names / kinds / arguments / plain values" + tag)
     # ---- behaviour
     S2 = spec_answers(case)
     for i, q in enumerate(case["queries"]):
@@ -513,7 +543,7 @@ CORPUS = [
     {"content": {"vars": [["x", {"v": "1"}]], "pars": [["k", {"v": "2"}]],
                  "derived": [["d1", {"args": ["x", "k"], "e": _F["mul"], "name": "f"}], ["d2", {"args": ["x", "k"], "e": _F["add"], "name": "f"}]],
                  "rxns": [["r", {"args": ["d1", "d2"], "e": _F["mul"], "name": "g", "st": [["x", {"c": "-1"}]]}]]}},
-    # F-C11-2: one function used with the same argument twice (homodimer)
+    # former F-C11-2 (repaired): one function used with the same argument twice (homodimer) - generation raises ValueError
     {"content": {"vars": [["A", {"v": "1"}], ["B", {"v": "0"}]], "pars": [["k", {"v": "2"}]], "derived": [],
                  "rxns": [["dimer", {"args": ["A", "A", "k"], "e": ["*", ["*", ["a", 0], ["a", 1]], ["a", 2]], "name": "mass_action_2s",
                                      "st": [["A", {"c": "-2"}], ["B", {"c": "1"}]]}]]}},
@@ -539,7 +569,7 @@ def _rich(name, args, e):
 
 
 CORPUS += [
-    # wider fragment: x % (1/p) is printed `(x % 1/p)` (F-C11-4)
+    # wider fragment: x % (1/p) was printed `(x % 1/p)` (former F-C11-4, repaired: `(x % (1/p))`)
     {"content": {"vars": [["x", {"v": "4"}]], "pars": [["p", {"v": "4"}]],
                  "derived": [["d", _rich("f", ["x", "p"], ["%", ["/", ["c", "125"], ["a", 0]], ["/", ["a", 1], ["*", ["a", 1], ["a", 1]]]])]],
                  "rxns": [["r", dict(_rich("g", ["d", "x"], ["*", ["a", 0], ["a", 1]]), st=[["x", {"c": "-1"}]])]]},
